@@ -65,9 +65,9 @@ CLAIMS.update({
     "C07": dict(
         text="Unbounded Lean theorems over byte strings and 64-bit patterns: npy_roundtrip (write then read returns the same shape and bit-identical values, NaN payloads and infinities included), reads_what_it_writes_npy/_text "
              "(auto-detection + reader accept what either writer emits), text_header_roundtrip, text_shape_tokens, fmtFixed_error (the printed decimal is within half a unit of the p-th decimal of the exact value), "
-             "text_value_roundtrip (the re-read double is the nearest-even binary64 of the printed decimal, all precisions), special values survive as classes; the literal 'within half a unit' of the re-read double is proved unattainable "
+             "text_value_roundtrip (the re-read double is the nearest-even binary64 of the printed decimal, all precisions), special values survive as classes, and text -> npy -> text at equal precision reproduces the text whenever the printed values have at most 15 significant digits (text_npy_text, via nearest_error: the model's decimal -> binary64 conversion has relative error <= 2^-53 in the normal range); the literal 'within half a unit' of the re-read double is proved unattainable "
              "(literal_bound_witness: 0.75 at p=1), so the bound decided is half a unit + half an ulp. The std routines are modelled and compared string-for-string / bit-for-bit with Rust on every run; CLI pipes and files for all writer/reader pairs.",
-        note=NOTE_COMMON + " `{:.p}` and f64::from_str (core/std) are modelled, not verified: the models fmtFixed / parseF64 are validated on every run (thousands of values). The 15-significant-digit text->npy->text clause is checked on the model per generated case, not proved. Non-ASCII input is outside the model."),
+        note=NOTE_COMMON + " `{:.p}` and f64::from_str (core/std) are modelled, not verified: the models fmtFixed / parseF64 are validated on every run (thousands of values). Non-ASCII input is outside the model."),
     "C15": dict(
         text="Unbounded Lean theorems: writer_layout (for every shape: magic, version 1.0, u16 little-endian header length making the data offset a multiple of 64, literal dict, space padding, newline, then 8 little-endian bytes per value in row-major order), "
              "writer_dict_parses, grammar_accepts_numpy (both quote styles, any spacing around ':' and ',', the three keys in any order, optional trailing commas), descr_accepted_iff (exactly byte-order char + one of ten type names), "
